@@ -299,6 +299,16 @@ def main(ctx):
             cells.append({"cfg": {"lineup": lu, "model": "gauss2", "ensemble": 2, "seed": S, "dims": 2, "loss": loss}, "seqs": [[1, 2, 1]]})
     for lu in (lus[1], lus[4], lus[12]):
         cells.append({"cfg": {"lineup": lu, "model": "gauss2", "ensemble": 2, "seed": S, "dims": 2, "scheduler": {"eps": 0.5, "agent_seed": 1}}, "seqs": [[2, 2], [1, 1, 2]]})
+    # non-finite and overflowing simulations under losses that do not reject them (the recorded loss must be what the loss returned)
+    for lu in ([lus[0], lus[13], lus[9]] if ctx.quick else sub):
+        for model in ("inf2", "nan2", "huge2"):
+            for loss in ("fourier", "msm", "likelihood"):
+                cells.append({"cfg": {"lineup": lu, "model": model, "ensemble": 2, "seed": S, "dims": 2, "loss": loss}, "seqs": [[2, 1, 1]]})
+    # a search space that is not the unit box, particle swarm attracted by the global minimum across samplers
+    for first in ("Halton", "RandomUniform"):
+        for opts in ({"global_minimum_across_samplers": True}, {}):
+            lu = [{"cls": first, "bs": 3}, {"cls": "ParticleSwarm", "bs": 2, "opts": opts}, {"cls": "BestBatch", "bs": 2}]
+            cells.append({"cfg": {"lineup": lu, "model": "ident2", "ensemble": 1, "seed": S, "dims": 2, "loss": "minkowski", "lower": -3.3, "upper": 7.1, "precision": 0.7}, "seqs": [[3, 3, 2], [1] * 8]})
     # n_jobs > 1 with the real loky back-end and a model whose run time depends on the parameter (completion order != submission order)
     for lu in (lus[0], lus[13]) if ctx.quick else (lus[0], lus[13], lus[22], lus[31]):
         for nj in (2, 4):
